@@ -2,6 +2,9 @@
 
 M : TLC checks TryFromRepr.tla (Rust's discriminant rule vs the textual reconstruction in try_from.rs,
     repr detection) on every enum of <= MaxVariants variants x discriminant expressions x repr attributes.
+U : DiscCounter.tla - the two computations as a machine consuming one variant per step; Apalache shows the agreement
+    invariant inductive over unbounded integers (any enum length, any discriminant), TLAPS proves Spec => []Agree, the
+    broken machine is refuted (negative control); TLC's P_C12_Machine ties the machine to TryFromRepr.tla.
 R : each valid enum becomes a real enum deriving TryFrom; for 8/16-bit reprs *every* integer, for wider
     ones all discriminants +-1 and the extremes go through try_from and are compared (a) with the
     specification's table and (b) with rustc's own `as` cast / in-memory tag of the same enum
@@ -166,6 +169,17 @@ def run(chk, tier, seed, replay):
         raise vlib.ToolError(f"TLC: {r.violation}\n{r.raw_tail[-1500:]}")
     cases = r.cases
     chk.cov["exhaustive"] = not replay
+    # the unbounded part: the same two computations as a one-variant-per-step machine (DiscCounter.tla; P_C12_Machine above
+    # ties it to TryFromRepr.tla). Apalache: the invariant is inductive over unbounded integers; the broken machine is not.
+    # TLAPS: Spec => []Agree.
+    proofs = [vlib.run_apalache("DiscCounter", ["--init=Init", "--inv=IndInv", "--length=0"]),
+              vlib.run_apalache("DiscCounter", ["--init=IndInv", "--inv=IndInv", "--length=1"]),
+              vlib.run_apalache("DiscCounter", ["--init=IndInv", "--next=NextBroken", "--inv=IndInv", "--length=1"], expect_error=True),
+              vlib.run_tlapm("DiscCounter_proofs")]
+    chk.notes["unbounded"] = proofs
+    for p in proofs:
+        if not p["ok"]:
+            raise vlib.ToolError(f"DiscCounter: {p}")
     mods = []
     meta = {}
     gens = ["", "lt_const", "type", "where", "const_only"]
